@@ -50,3 +50,6 @@ package bscript
 
 //@ func bscript.NewP2PKHFromAddress
 //@   ensures[p2pkh_from_addr_shape] (=> (= err nil) (and (not (nil? result)) (= (len result) 25)))
+
+//@ func bscript.(*Script).String
+//@   opt nilrecv ok
